@@ -112,7 +112,7 @@ class DLTypeContext:
                 continue
             if dltype_annotation.optional and tensor is None:
                 # skip optional tensors
-                return
+                continue
             if not any(isinstance(tensor, T) for T in _dtypes.SUPPORTED_TENSOR_TYPES):
                 raise _errors.DLTypeUnsupportedTensorTypeError(
                     actual_type=cast("type[Any]", type(tensor)),
